@@ -14,6 +14,7 @@ pub mod pushops;
 pub mod redact;
 pub mod sign;
 pub mod uri;
+pub mod wire;
 pub mod xmatrix;
 
 pub struct Report {
@@ -44,6 +45,7 @@ pub fn run(name: &str, tier: &str) -> Option<Value> {
         "html" => html::run(tier).to_json(),
         "ids" => ids::run(tier).to_json(),
         "xmatrix" => xmatrix::run(tier).to_json(),
+        "wire" => wire::run(tier).to_json(),
         "sign" => sign::run(tier).to_json(),
         "uri" => uri::run(tier).to_json(),
         _ => return None,
